@@ -5,7 +5,9 @@
 use std::sync::Arc;
 
 use chrono::{NaiveDate, Weekday};
-use opening_hours_syntax::rules::day::{DaySelector, Month, MonthdayRange, WeekDayRange, Year, YearRange};
+use opening_hours_syntax::rules::day::{
+    Date, DateOffset, DaySelector, HolidayKind, Month, MonthdayRange, WeekDayRange, WeekNum, WeekRange, Year, YearRange,
+};
 use opening_hours_syntax::rules::time::{Time, TimeEvent, TimeSelector, TimeSpan, VariableTime};
 use opening_hours_syntax::rules::{OpeningHoursExpression, RuleOperator, RuleSequence};
 use opening_hours_syntax::{ExtendedTime, RuleKind};
@@ -64,6 +66,28 @@ pub enum Sel {
     MoSu,
     /// `2024`: a year selector matching all probe days
     Y2024,
+    /// `Jun 12`: a dated selector matching today only
+    Jun12,
+    /// `Jun 11-13`: yesterday, today, tomorrow
+    Jun11To13,
+    /// `2024 Jun 12`: dated selector with a year
+    Y2024Jun12,
+    /// `2024 Jun 10-2024 Jun 12`
+    Y2024Jun10To12,
+    /// `week 24` (Mon 2024-06-10 .. Sun 2024-06-16)
+    Week24,
+    /// `PH` with a calendar holding 2024-06-12 and 2024-06-13
+    Ph,
+    /// `Jul`: next month, outside the probe window
+    Jul,
+    /// `2024 Jun`: month range with a year
+    Y2024Jun,
+    /// `2025`: a later year
+    Y2025,
+    /// `2024-2030/2`: stepped years (2024 matches)
+    YStep2,
+    /// `Su[2]`: second Sunday of the month = 2024-06-09
+    Su2,
 }
 
 impl Sel {
@@ -81,6 +105,34 @@ impl Sel {
             Sel::Th => ds.weekday.push(wd(Weekday::Thu, Weekday::Thu)),
             Sel::MoSu => ds.weekday.push(wd(Weekday::Mon, Weekday::Sun)),
             Sel::Y2024 => ds.year.push(YearRange { range: Year(2024)..=Year(2024), step: 1 }),
+            Sel::Jun12 => ds.monthday.push(MonthdayRange::Date {
+                start: (Date::md(12, Month::June), DateOffset::default()),
+                end: (Date::md(12, Month::June), DateOffset::default()),
+            }),
+            Sel::Jun11To13 => ds.monthday.push(MonthdayRange::Date {
+                start: (Date::md(11, Month::June), DateOffset::default()),
+                end: (Date::md(13, Month::June), DateOffset::default()),
+            }),
+            Sel::Y2024Jun12 => ds.monthday.push(MonthdayRange::Date {
+                start: (Date::ymd(12, Month::June, 2024), DateOffset::default()),
+                end: (Date::ymd(12, Month::June, 2024), DateOffset::default()),
+            }),
+            Sel::Y2024Jun10To12 => ds.monthday.push(MonthdayRange::Date {
+                start: (Date::ymd(10, Month::June, 2024), DateOffset::default()),
+                end: (Date::ymd(12, Month::June, 2024), DateOffset::default()),
+            }),
+            Sel::Week24 => ds.week.push(WeekRange { range: WeekNum(24)..=WeekNum(24), step: 1 }),
+            Sel::Ph => ds.weekday.push(WeekDayRange::Holiday { kind: HolidayKind::Public, offset: 0 }),
+            Sel::Jul => ds.monthday.push(MonthdayRange::Month { range: Month::July..=Month::July, year: None }),
+            Sel::Y2024Jun => ds.monthday.push(MonthdayRange::Month { range: Month::June..=Month::June, year: Some(2024) }),
+            Sel::Y2025 => ds.year.push(YearRange { range: Year(2025)..=Year(2025), step: 1 }),
+            Sel::YStep2 => ds.year.push(YearRange { range: Year(2024)..=Year(2030), step: 2 }),
+            Sel::Su2 => ds.weekday.push(WeekDayRange::Fixed {
+                range: Weekday::Sun..=Weekday::Sun,
+                offset: 0,
+                nth_from_start: [false, true, false, false, false],
+                nth_from_end: [false; 5],
+            }),
         }
         ds
     }
@@ -91,7 +143,14 @@ impl Sel {
         // 2024-06-09 Sun, 10 Mon, 11 Tue, 12 Wed, 13 Thu, 14 Fri, 15 Sat
         assert!((-3..=3).contains(&offset));
         match self {
-            Sel::Empty | Sel::Jun | Sel::MoSu | Sel::Y2024 => true,
+            Sel::Empty | Sel::Jun | Sel::MoSu | Sel::Y2024 | Sel::Y2024Jun | Sel::YStep2 => true,
+            Sel::Jun12 | Sel::Y2024Jun12 => offset == 0,
+            Sel::Jun11To13 => (-1..=1).contains(&offset),
+            Sel::Y2024Jun10To12 => (-2..=0).contains(&offset),
+            Sel::Week24 => offset >= -2,
+            Sel::Ph => offset == 0 || offset == 1,
+            Sel::Jul | Sel::Y2025 => false,
+            Sel::Su2 => offset == -3,
             Sel::TuWe => offset == -1 || offset == 0,
             Sel::Tu => offset == -1,
             Sel::We => offset == 0,
@@ -108,6 +167,15 @@ impl Sel {
 
 pub fn probe_day(offset: i64) -> NaiveDate {
     date(2024, 6, (12 + offset) as u32)
+}
+
+/// Evaluation context of the templates: no location, public holidays 2024-06-12 and 2024-06-13.
+pub fn context() -> opening_hours::Context {
+    let mut cal = compact_calendar::CompactCalendar::default();
+    cal.insert(date(2024, 6, 12));
+    cal.insert(date(2024, 6, 13));
+    let holidays = opening_hours::ContextHolidays::new(Arc::new(cal), Default::default());
+    opening_hours::Context::default().with_holidays(holidays)
 }
 
 #[derive(Clone, Debug)]
